@@ -74,7 +74,7 @@ func runSched(worker, scenario string, prefix []int, k int, hb bool) (*schedOut,
 		return nil, fmt.Errorf("scheduled run %s [%s]: %v: %s", scenario, choicesString(prefix), err, lastLines(stderr.String(), 4))
 	}
 	var r schedOut
-	if err := json.Unmarshal(out, &r); err != nil {
+	if err := json.Unmarshal(extractResult(out), &r); err != nil {
 		return nil, fmt.Errorf("scheduled run %s: bad output: %v", scenario, err)
 	}
 	return &r, nil
@@ -82,10 +82,10 @@ func runSched(worker, scenario string, prefix []int, k int, hb bool) (*schedOut,
 
 type schedStats struct {
 	executions, points, maxPoints int64
-	distinctOutcomes                       map[string]bool
-	distinctFinal                          map[string]bool
-	interleaved                            int64 // executions in which a thread had to wait for a sync object held by another
-	preempted                              int64
+	distinctOutcomes              map[string]bool
+	distinctFinal                 map[string]bool
+	interleaved                   int64 // executions in which a thread had to wait for a sync object held by another
+	preempted                     int64
 }
 
 type schedViolation struct {
@@ -289,7 +289,7 @@ func exploreAll(worker string, scenarios []string, boundOf func(string) int, bas
 					continue
 				}
 				var x xOut
-				if err := json.Unmarshal(o, &x); err != nil {
+				if err := json.Unmarshal(extractResult(o), &x); err != nil {
 					errs[i] = fmt.Errorf("in-process exploration of %s: bad output", scenarios[i])
 					continue
 				}
@@ -716,7 +716,7 @@ func racePass(scenarios []string, thorough bool, r *Result, baselines ...map[str
 				if err == nil && baseline != nil {
 					// results of the free-running execution against the results of the calls run alone
 					var outcomes [][]string
-					if json.Unmarshal(stdout.Bytes(), &outcomes) == nil {
+					if json.Unmarshal(extractResult(stdout.Bytes()), &outcomes) == nil {
 						for ti, t := range parseScenarioOps(j.sc) {
 							for k, op := range t {
 								if strings.HasPrefix(op, "NS:") || strings.HasPrefix(op, "ND") {
